@@ -1884,6 +1884,13 @@ func vectors(di *docInfo) []vector {
 		v := base(t)
 		v.opts.Reason = ""
 		out = append(out, v)
+		// a reason written with blanks around it, and one of blanks only: carried
+		// as given (what counts as a reason is decided before anything is tidied)
+		for _, r := range []string{"  wrong quantity\t", " ", "\n"} {
+			v := base(t)
+			v.opts.Reason = r
+			out = append(out, v)
+		}
 		// extensions
 		offered := dedup(def.Extensions)
 		for _, k := range offered {
@@ -2227,7 +2234,7 @@ func genCase(t *rapid.T) Case {
 	}
 	c.Opts.Type = rapid.SampledFrom(types).Draw(t, "type")
 	if rapid.IntRange(0, 9).Draw(t, "reason") < 7 {
-		c.Opts.Reason = rapid.SampledFrom([]string{defaultReason, "x", "Devolución parcial – línea 2", "reason with \"quotes\" and\ttab"}).Draw(t, "reason_text")
+		c.Opts.Reason = rapid.SampledFrom([]string{defaultReason, "x", "Devolución parcial – línea 2", "reason with \"quotes\" and\ttab", "  padded reason ", " ", "\t\n"}).Draw(t, "reason_text")
 	}
 	nExt := rapid.SampledFrom([]int{0, 0, 1, 1, 2, 3}).Draw(t, "n_ext")
 	for i := 0; i < nExt; i++ {
@@ -2265,7 +2272,7 @@ func genCase(t *rapid.T) Case {
 func init() {
 	vh.Describe(
 		"Cases = (corpus invoice, option vector, entry point). Source: every example invoice of the repository (73, all regimes and addons), calculated, validated, optionally signed with a generated key and stamped in the header with each provider the published definition requires (present / absent / an unrelated one), optionally with its code removed (or, for the examples without one, a code added), optionally with value_date / op_date. "+
-			"Option vector: type in every published invoice type + {absent, an undefined key}; reason absent/set; ext: each offered key with its first/last published code and an unpublished code, all offered keys, a published key the definition does not offer, an undefined key; required stamps in the header / missing one by one / all missing / handed over in the options; series; issue date; copy_tax; passed as functional options, bill.WithOptions(struct), the struct followed by functional extension options (the struct must come back unchanged), bill.WithData(JSON) and CLI flags; on the library path the same option values are used for two corrections of the same envelope, which must give the same document (options consumed by the first correction would starve the second). "+
+			"Option vector: type in every published invoice type + {absent, an undefined key}; reason absent / set / set with blanks around it / blanks only (carried as given); ext: each offered key with its first/last published code and an unpublished code, all offered keys, a published key the definition does not offer, an undefined key; required stamps in the header / missing one by one / all missing / handed over in the options; series; issue date; copy_tax; passed as functional options, bill.WithOptions(struct), the struct followed by functional extension options (the struct must come back unchanged), bill.WithData(JSON) and CLI flags; on the library path the same option values are used for two corrections of the same envelope, which must give the same document (options consumed by the first correction would starve the second). "+
 			"Entry points: Envelope.Correct / Replicate, in-process internal/cli Correct / Replicate (envelope and bare-document input), cli.Bulk correct / replicate requests, and the gobl executable (sampled). "+
 			"Oracle: (1) json.Marshal(source) and a reflection dump of everything reachable from the source (unexported fields, signatures) are identical before the call, after it, and after the result was recalculated, stamped (AddStamp overwrites in place), signed, had rows appended and had every reachable scalar, map entry and slice element overwritten in place (undone afterwards). "+
 			"(2) refusal model from data/regimes + data/addons `corrections` (types/extensions/stamps concatenated regime then addons, reason_required OR-ed): refused iff type missing, source without code, a required stamp missing, types defined and the type not among them, reason required and empty, or the edited source does not calculate; CLI/bulk/exec additionally iff the expected result does not validate. The code must refuse exactly then. "+
